@@ -42,6 +42,7 @@ def check(ck: Checker) -> None:
     from . import round7 as _r7
 
     _r7.ensure_loaded_by_kind(ck, "C17.accessors")
+    _r7.view_loads_only_unloaded(ck, "C17.viewguard")
 
 
 
